@@ -183,6 +183,14 @@ func (rn *runner) streamAlias(g *gen, opList []string) {
 					x = mk([]string{"10", "0.1", "7", "1.5", "-10", "0.3", "1E+5", "1E-5"}[g.r.Intn(8)])
 					y = apd.New(g.pick(150000, 200000, 400000, 99999999, 3, 2), 0)
 					y.Negative = g.r.Intn(2) == 0
+				} else if op == "pow" && g.r.Intn(6) == 0 {
+					// fractional exponents whose FRACTIONAL part fails inside the working context (Ln/Exp/Mul of an
+					// operand at the edge of the package's exponent range raise a condition that BaseContext traps):
+					// the internal-error exit of Pow, under every aliasing pattern (repo 592c65a)
+					c = apd.BaseContext.WithPrecision(uint32(1 + g.r.Intn(16)))
+					x = mk([]string{"1E-99999", "1E-100000", "3E-99998", "1E+99999", "9.9E+99999", "1E+60000"}[g.r.Intn(6)])
+					y = mk([]string{"0.9999", "1.5", "0.5", "2.0001", "1.99999", "0.99"}[g.r.Intn(6)])
+					y.Negative = g.r.Intn(3) == 0
 				}
 			}
 		} else {
